@@ -11,6 +11,15 @@
 
 namespace etl {
 
+#if __has_builtin(__is_nothrow_constructible) or (defined(TETL_COMPILER_GCC) and __GNUC__ >= 11)
+
+namespace detail {
+template <typename T, typename... Args>
+using is_nothrow_constructible_helper = bool_constant<__is_nothrow_constructible(T, Args...)>;
+} // namespace detail
+
+#else
+
 namespace detail {
 template <bool, typename T, typename... Args>
 struct nothrow_constructible_impl : false_type { };
@@ -39,6 +48,8 @@ struct nothrow_constructible_impl<true, T[Size], Args...>
 template <typename T, typename... Args>
 using is_nothrow_constructible_helper = nothrow_constructible_impl<__is_constructible(T, Args...), T, Args...>;
 } // namespace detail
+
+#endif
 
 /// \brief The variable definition does not call any operation that is not
 /// trivial. For the purposes of this check, the call to etl::declval is
